@@ -76,6 +76,8 @@ mod stack;
 mod strand;
 mod table;
 mod tables;
+#[cfg(chalk_verif)]
+pub(crate) mod verif;
 
 index_struct! {
     pub struct TableIndex { // FIXME: pub b/c TypeFoldable
